@@ -155,6 +155,114 @@ def check_idwords_stepid(ctx, only_stepid=False):
                 ctx.undec('R-STEPID', fmt, w, 'comparison not recognised: %s' % tt[:60])
 
 
+def _single_bindings(fn):
+    """local names assigned exactly once from an arithmetic expression (temporaries like lays = i - 1)"""
+    cnt, val = {}, {}
+    for st in iter_stmts(fn.body):
+        for n in ast.walk(st):
+            if isinstance(n, ast.Name) and isinstance(n.ctx, ast.Store):
+                cnt[n.id] = cnt.get(n.id, 0) + 1
+        if isinstance(st, ast.Assign) and len(st.targets) == 1 and isinstance(st.targets[0], ast.Name) and isinstance(st.value, (ast.BinOp, ast.Name, ast.Constant)):
+            val[st.targets[0].id] = st.value
+    return dict((k, v) for k, v in val.items() if cnt.get(k) == 1)
+
+
+def _expand(e, binds, depth=0):
+    from .. import paths as _p
+    if depth > 6:
+        return e
+    names = set(n.id for n in ast.walk(e) if isinstance(n, ast.Name)) & set(binds)
+    if not names:
+        return e
+    return _expand(_p.subst(e, dict((k, binds[k]) for k in names)), binds, depth + 1)
+
+
+def check_step_tile(ctx, fmt, cls, rule='R-STEPTILE'):
+    """The memmap readers of temperature and height/pressure find i, the index of the first record of the second step (= records per
+    step), and derive LAY = f(i) and TSTEP = N / g(i).  The variable getter reshapes the whole record table as
+    (TSTEP, <middle factors in LAY>, record length): the middle factors are the records per step R(LAY).  The three must agree:
+    R(f(i)) = i = g(i) for every i, otherwise TSTEP * R(LAY) is not the record count (the reader reports a wrong number of steps
+    whenever the integer truncation does not hide it, e.g. TSTEP = records / LAY instead of records / (LAY + 1)).  Decided by the
+    checker's own arithmetic on sample values of i (the expressions are linear)."""
+    from .. import consteval
+    rp = CAMX + fmt + '/Memmap.py'
+    m = ctx.src.mod(rp)
+    init = m.func(cls + '.__init__')
+    get = m.functions.get(cls + '.__var_get')
+    where = 'src/PseudoNetCDF/%s %s' % (rp, cls)
+    dims = {}
+    for c in ast.walk(init):
+        if isinstance(c, ast.Call) and isinstance(c.func, ast.Attribute) and c.func.attr == 'createDimension' and len(c.args) >= 2 and isinstance(c.args[0], ast.Constant):
+            dims[c.args[0].value] = c
+    if 'LAY' not in dims or 'TSTEP' not in dims or get is None:
+        ctx.undec(rule, fmt, where, 'LAY / TSTEP dimension or the variable getter not found')
+        return 1
+    binds = _single_bindings(init)
+    # the loop index is never expanded
+    loopvars = set(n.id for st in iter_stmts(init.body) if isinstance(st, ast.For) for n in ast.walk(st.target) if isinstance(n, ast.Name))
+    for k in list(binds):
+        if k in loopvars:
+            del binds[k]
+    lay = _expand(dims['LAY'].args[1], binds)
+    ts = _expand(dims['TSTEP'].args[1], binds)
+    while isinstance(ts, ast.Call) and dotted(ts.func) in ('int', 'np.int32', 'int32') and ts.args:
+        ts = ts.args[0]
+    if not (isinstance(ts, ast.BinOp) and isinstance(ts.op, (ast.Div, ast.FloorDiv))):
+        ctx.undec(rule, fmt, where, 'TSTEP length is not a quotient: %s' % norm(ts)[:60])
+        return 1
+    den = ts.right
+    free = (set(n.id for n in ast.walk(lay) if isinstance(n, ast.Name)) | set(n.id for n in ast.walk(den) if isinstance(n, ast.Name))) - set(['int', 'len'])
+    if len(free) != 1 or not (free & loopvars):
+        ctx.undec(rule, fmt, where, 'layer count and step divisor depend on %s, not on the one record index of the search loop' % sorted(free))
+        return 1
+    iv = list(free)[0]
+    # the getter: <whole-table>.reshape(times, <middle...>, <record length>) with times / lays read from the dimensions
+    gb = {}
+    for st in iter_stmts(get.body):
+        if isinstance(st, ast.Assign) and len(st.targets) == 1 and isinstance(st.targets[0], ast.Name) and isinstance(st.value, ast.Call) and dotted(st.value.func) == 'len' \
+                and st.value.args and isinstance(st.value.args[0], ast.Subscript) and norm(st.value.args[0].value).endswith('.dimensions') and isinstance(st.value.args[0].slice, ast.Constant):
+            gb[st.targets[0].id] = st.value.args[0].slice.value
+    tname = [k for k, v in gb.items() if v == 'TSTEP']
+    lname = [k for k, v in gb.items() if v == 'LAY']
+    mid = None
+    for c in walk_expr(get):
+        if isinstance(c, ast.Call) and isinstance(c.func, ast.Attribute) and c.func.attr == 'reshape' and len(c.args) >= 3 and tname \
+                and isinstance(c.args[0], ast.Name) and c.args[0].id == tname[0] and 'shape' in norm(c.func.value):
+            mid = c.args[1:-1]
+            node = c
+            break
+    if mid is None or not lname:
+        ctx.undec(rule, fmt, where, 'reshape of the whole record table (TSTEP, ..., record length) not found in the variable getter')
+        return 1
+    bad = None
+    for i in (2, 4, 6, 8, 12, 20):
+        L = consteval.ev(lay, {iv: i})
+        D = consteval.ev(den, {iv: i})
+        if L is consteval.UNK or D is consteval.UNK:
+            ctx.undec(rule, fmt, where, 'layer count / divisor outside the evaluated fragment: %s ; %s' % (norm(lay)[:40], norm(den)[:40]))
+            return 1
+        R = 1
+        for a in mid:
+            v = consteval.ev(a, {lname[0]: L})
+            if v is consteval.UNK:
+                ctx.undec(rule, fmt, where, 'reshape factor outside the evaluated fragment: %s' % norm(a)[:40])
+                return 1
+            R *= v
+        if not (R == i and D == i):
+            bad = (i, L, D, R)
+            break
+    if bad is None:
+        ctx.ok(rule, fmt, where, 'LAY = %s, TSTEP = N / (%s), records per step in the getter = %s: all equal the record index i on 6 samples'
+               % (norm(lay), norm(den), ' * '.join(norm(a) for a in mid)))
+    else:
+        i, L, D, R = bad
+        ctx.violation(Finding(rule, rp, cls + '.__init__', api.stmt_of(dims['TSTEP']),
+                              'with %d records per time step the reader sets LAY = %s = %s and TSTEP = records / %s, while its variable getter reads %s = %s records per '
+                              'step: TSTEP * records-per-step is not the record count, so the step count is wrong whenever integer truncation does not hide it'
+                              % (i, norm(lay), L, D, ' * '.join(norm(a) for a in mid), R)), oid=fmt)
+    return 1
+
+
 def check_scan_eof(ctx, rp, q, rule='R-SCANEOF'):
     """a loop that scans records with <rf>.next() and continues on a condition over <rf>.record_size must be able to leave at end of
     file: RecordFile.next() (read from its source) does not raise there and leaves record_size as it was, so such a loop never ends
@@ -483,6 +591,8 @@ def run(ctx):
     check_windcount(ctx)
     ctx.rule('R-SCANEOF', 'record scans driven by record_size can leave at end of file (RecordFile.next() is silent there)')
     check_scan_eof(ctx, CAMX + 'wind/Read.py', 'wind.__gettimestep')
+    ctx.rule('R-STEPTILE', 'memmap met readers: TSTEP = records / (records per step), with the records per step that the layer count and the reshape of the variable getter imply')
+    ctx.floor('readers judged by R-STEPTILE', sum(check_step_tile(ctx, f_, c_) for f_, c_ in (('temperature', 'temperature'), ('height_pressure', 'height_pressure'))), 2)
     # ---------------- R-EODUNIT: one end-of-day constant per record reader (the unit of its time values)
     ctx.rule('R-EODUNIT', 'record readers: every timediff/timeadd/timerange call of one class uses the same end-of-day value (24 for hours, 2400 for HHMM)')
     EODPOS = {'timediff': 2, 'timeadd': 2, 'timerange': 3}
